@@ -191,7 +191,36 @@ impl serde::Serialize for Refuses {
 
 fn wide(rng: &mut Rng) -> String {
     let n = [33usize, 64, 65, 129, 257, 1000, 1025, 4097][rng.below(8)] + rng.below(3);
-    match rng.below(5) {
+    match rng.below(7) {
+        5 => {
+            // strings that look like structure: brackets, braces, quotes and backslashes in bulk, after a
+            // string that ends in an escaped backslash (a scanner that tracks "inside a string" by looking
+            // at the previous byte gets out of step here)
+            let k = 100 + rng.below(80);
+            let piece = ["[", "{", "[[", "]", "}", "[{", "\\\\", "\\\"", ":", ","];
+            let body: String = (0..k)
+                .map(|_| {
+                    let span = 3 + rng.below(8);
+                    piece[rng.below(span)]
+                })
+                .collect();
+            format!("{{\"dir\":\"C:\\\\tmp\\\\\",\"pattern\":\"{}\",\"n\":[1,{{\"q\":\"\\\\\"}},\"{}\"]}}", body, body)
+        }
+        6 => {
+            // very many small nested arrays: more pending elements than any fixed scratch capacity
+            // (a handful per run: each is ~0.5 MB)
+            let rows = if rng.chance(1, 10) { [70_000usize, 66_000, 131_100][rng.below(3)] } else { [64usize, 1000, 4097][rng.below(3)] };
+            let mut t = String::with_capacity(rows * 8);
+            t.push_str("{\"rows\":[");
+            for r in 0..rows {
+                if r > 0 {
+                    t.push(',');
+                }
+                t.push_str(&format!("[{},{}]", r % 10, (r + 1) % 10));
+            }
+            t.push_str("],\"tail\":[0,0,0,[1],5]}");
+            t
+        }
         4 => {
             // octets and near-octets, negatives included (what a byte-string shortcut would mangle)
             let (lo, hi) = [(-3i64, 255i64), (0, 255), (-128, 127), (-1, 256), (250, 260)][rng.below(5)];
